@@ -20,6 +20,7 @@ type tv struct {
 	term   string
 	typ    types.Type // nil = untyped integer constant
 	spec   bool       // []string spec-level sequence (SSeq)
+	smap   bool       // map[K]string spec-level map (SMap)
 	isAddr bool
 	ref    string
 	off    string
@@ -556,6 +557,9 @@ func (e *evalEnv) index(x *ast.IndexExpr) tv {
 	if base.spec {
 		return tv{term: fmt.Sprintf("(qat %s %s)", base.term, idx.term), typ: tString}
 	}
+	if base.smap {
+		return tv{term: fmt.Sprintf("(ite (select (smdom %s) %s) (select (smval %s) %s) sempty)", base.term, idx.term, base.term, idx.term), typ: tString}
+	}
 	if base.isAddr {
 		if at, ok := base.typ.Underlying().(*types.Array); ok {
 			return e.fromAddr(at.Elem(), base.ref, fmt.Sprintf("(+ %s %s)", base.off, mulConst(slots(at.Elem()), idx.term)))
@@ -814,6 +818,52 @@ func (e *evalEnv) call(x *ast.CallExpr) tv {
 		case "specByte":
 			v := e.value(e.eval(x.Args[0]))
 			return tv{term: fmt.Sprintf("(sunit (mod %s 256))", v.term), typ: tString}
+		case "specHas":
+			m := e.value(e.eval(x.Args[0]))
+			k := e.value(e.eval(x.Args[1]))
+			if !m.smap {
+				if m.typ != nil && isSpecMapType(m.typ) {
+					// the Go map parameter of a specification function under verification
+					return tv{term: sel(e.st.H["MD"], m.term, k.term), typ: tBool}
+				}
+				e.fail(x, "specHas() needs a specification map")
+			}
+			return tv{term: fmt.Sprintf("(select (smdom %s) %s)", m.term, k.term), typ: tBool}
+		case "mapview":
+			// mapview(o): the specification-level view (keys, byte-string values) of a map[K][]byte in memory
+			m := e.value(e.eval(x.Args[0]))
+			mt, ok := m.typ.Underlying().(*types.Map)
+			if !ok {
+				e.fail(x, "mapview() of %s", m.typ)
+			}
+			if vs, ok := mt.Elem().Underlying().(*types.Slice); !ok || slots(vs.Elem()) != 1 || kindOf(vs.Elem()) != "I" {
+				e.fail(x, "mapview(): values must be byte slices")
+			}
+			return tv{term: fmt.Sprintf("(mkSMap (select %s %s) (mvview (select %s %s) %s))", e.st.H["MD"], m.term, e.st.H["ML"], m.term, e.st.H["I"]), typ: types.NewMap(mt.Key(), tString), smap: true}
+		case "seen":
+			// seen(k): key k has been produced by the (single) map range loop of this function
+			var it string
+			n := 0
+			var kt types.Type
+			if e.a != nil && e.a.fn != nil {
+				for _, b := range e.a.fn.Blocks {
+					for _, in := range b.Instrs {
+						if r, ok := in.(*ssa.Range); ok {
+							if mt, ok := r.X.Type().Underlying().(*types.Map); ok {
+								if t, bound := e.a.env[r]; bound && t != "RANGE" {
+									it, kt = t, mt.Key()
+									n++
+								}
+							}
+						}
+					}
+				}
+			}
+			if n != 1 {
+				e.fail(x, "seen(): needs exactly one executed map range in the function (found %d)", n)
+			}
+			k := e.value(e.eval(x.Args[0]))
+			return tv{term: sel(e.st.H["MD"], it, e.a.mapKey(kt, k.term)), typ: tBool}
 		case "seq":
 			// seq(x): the spec-level sequence view of a []string in memory
 			return e.toSpec(e.value(e.eval(x.Args[0])), x)
@@ -889,6 +939,10 @@ func (e *evalEnv) call(x *ast.CallExpr) tv {
 		if isSpecSeqType(pt) && !v.spec {
 			v = e.toSpec(v, ax)
 		}
+		if isSpecMapType(pt) && !v.smap {
+			// a Go map[K]string in memory (the parameter of a specification function under verification)
+			v = tv{term: fmt.Sprintf("(mkSMap (select %s %s) (select %s %s))", e.st.H["MD"], v.term, e.st.H["MQ"], v.term), typ: pt, smap: true}
+		}
 		args = append(args, v.term)
 	}
 	rt := sig.Results().At(0).Type()
@@ -897,6 +951,15 @@ func (e *evalEnv) call(x *ast.CallExpr) tv {
 		fname += "_L"
 	}
 	return tv{term: fmt.Sprintf("(%s %s)", fname, strings.Join(args, " ")), typ: rt, spec: isSpecSeqType(rt)}
+}
+
+func isSpecMapType(t types.Type) bool {
+	m, ok := t.Underlying().(*types.Map)
+	if !ok || !isString(m.Elem()) {
+		return false
+	}
+	_, _, isInt := intBits(m.Key())
+	return isInt
 }
 
 func isSpecSeqType(t types.Type) bool {
@@ -1108,8 +1171,44 @@ func (a *Act) fnNames(phiEnv map[ssa.Value]string, results []string, st *State) 
 				}
 			}
 		}
-		if name == "rangeval" && phiEnv != nil {
+		// an enclosing loop's variables (not phis of the loop whose invariant is evaluated): their current values
+		if _, inPhi := func() (int, bool) {
 			for v := range phiEnv {
+				if phi, ok := v.(*ssa.Phi); ok && phi.Comment == name {
+					return 0, true
+				}
+			}
+			return 0, false
+		}(); !inPhi {
+			var found []ssa.Value
+			for v := range a.env {
+				if phi, ok := v.(*ssa.Phi); ok && phi.Comment == name && name != "" {
+					found = append(found, v)
+				}
+			}
+			if len(found) == 1 {
+				return tv{term: a.env[found[0]], typ: found[0].Type()}, true
+			}
+		}
+		if name == "rangeval" {
+			cands := map[ssa.Value]bool{}
+			for v := range phiEnv {
+				cands[v] = true
+			}
+			if n := func() int {
+				c := 0
+				for v := range cands {
+					if phi, ok := v.(*ssa.Phi); ok && phi.Comment == "rangeindex" {
+						c++
+					}
+				}
+				return c
+			}(); n == 0 {
+				for v := range a.env {
+					cands[v] = true
+				}
+			}
+			for v := range cands {
 				phi, ok := v.(*ssa.Phi)
 				if !ok || phi.Comment != "rangeindex" {
 					continue
@@ -1229,6 +1328,7 @@ type callSite struct {
 	pre  *State
 	post *State
 	lets map[string]tv
+	specArg map[int]bool // argument i is already a specification-level value (SMap / SSeq term), not a heap reference
 }
 
 func (cs *callSite) env(st *State, old *State) *evalEnv {
@@ -1253,7 +1353,11 @@ func (cs *callSite) env(st *State, old *State) *evalEnv {
 		}
 		for i := 0; i < sig.params.Len(); i++ {
 			if sig.params.At(i).Name() == name {
-				return tv{term: cs.args[np+i], typ: sig.params.At(i).Type()}, true
+				pt := sig.params.At(i).Type()
+				if cs.specArg[np+i] {
+					return tv{term: cs.args[np+i], typ: pt, smap: isSpecMapType(pt), spec: isSpecSeqType(pt)}, true
+				}
+				return tv{term: cs.args[np+i], typ: pt}, true
 			}
 		}
 		for i, fv := range sig.freeVars {
